@@ -304,7 +304,7 @@ func runC14(rc *runCtx) *RunResult {
 		serialDiffer := false
 		for k := range scripts {
 			for i := range scripts[k] {
-				if op := &scripts[k][i]; (op.Kind == QRelContains || op.Kind == QRelIntersects) && op.Obj != op.Obj2 && len(sa.ans[k][i]) == 1 && sa.ans[k][i][0] == 1 {
+				if op := &scripts[k][i]; (op.Kind == QRelContains || op.Kind == QRelIntersects) && op.Obj != op.Obj2 && len(sa.ans[k][i]) >= 1 && sa.ans[k][i][0] == 1 {
 					rc.inc("probe_relation_true_between_distinct_objects", 1)
 				}
 				if !eqAns(sa.ans[k][i], sb.ans[k][i]) {
